@@ -1116,6 +1116,11 @@ func (p *Parser) evaluateVarDefinition(ctx context) (Statement, error) {
 		if exists && specifiedType.DataType() != DATA_TYPE_UNKNOWN && !specifiedType.Equals(variableValueType) {
 			return nil, p.atError(fmt.Sprintf(`variable "%s" already exists but has type %s`, name, variableValueType.String()), nextToken)
 		}
+		// A variable which already exists (partial short re-definition) keeps its type, name and scope.
+		if exists {
+			variables = append(variables, variable)
+			continue
+		}
 		storedName := name
 
 		if global {
